@@ -378,6 +378,30 @@ static res_t do_op(rset_t *s, const op_t *op)
 			r.hash = H(r.hash, val, sizeof(*val) + val->size);
 		sqfs_free(key);
 		sqfs_free(val);
+		if (r.status == 0 && op->c % 2 == 0) {
+			/* the whole set walked twice: plainly, and with descriptor lookups of OTHER sets between the steps of the walk. The
+			   key/value cursor and the descriptor table are different things; a lookup must not move the cursor (status -9005) */
+			uint64_t h[2] = { H0, H0 };
+			int st[2] = { 0, 0 };
+			for (int pass = 0; pass < 2; pass++) {
+				sqfs_xattr_id_t d2, other;
+				if (sqfs_xattr_reader_get_desc(s->xr, idx, &d2) || sqfs_xattr_reader_seek_kv(s->xr, &d2)) { st[pass] = -1; break; }
+				for (uint32_t k = 0; k < d2.count && k < 6; k++) {
+					key = NULL; val = NULL;
+					if (pass) (void)sqfs_xattr_reader_get_desc(s->xr, (idx + 1 + k) % (super.inode_count + 2), &other);
+					st[pass] = sqfs_xattr_reader_read_key(s->xr, &key);
+					if (st[pass]) break;
+					h[pass] = H(h[pass], key, sizeof(*key) + key->size);
+					if (pass) (void)sqfs_xattr_reader_get_desc(s->xr, (idx + 2 + k) % (super.inode_count + 2), &other);
+					st[pass] = sqfs_xattr_reader_read_value(s->xr, key, &val);
+					if (st[pass] == 0) h[pass] = H(h[pass], val, sizeof(*val) + val->size);
+					sqfs_free(key); sqfs_free(val);
+					if (st[pass]) break;
+				}
+			}
+			if (st[0] == 0 && (st[1] != 0 || h[0] != h[1]))
+				r.status = -9005;
+		}
 		break;
 	}
 	case OP_ID: {
@@ -556,7 +580,7 @@ static int run_history(const op_t *ops, size_t n, const long *fail, size_t nfail
 		if (verbose)
 			printf("  op %zu %s a=%u b=%u c=%u -> status %d hash %016llx (reference %d %016llx)%s%s\n", i, opname[ops[i].kind], ops[i].a, ops[i].b,
 			       ops[i].c, got.status, (unsigned long long)got.hash, want.status, (unsigned long long)want.hash, was_hit ? " [fault]" : "", bad ? " <-- DIVERGES" : "");
-		if (!bad && !was_hit && consist_matters && got.status <= -9001 && got.status >= -9004) {
+		if (!bad && !was_hit && consist_matters && got.status <= -9001 && got.status >= -9005) {
 			bad = 1;
 		}
 		if (bad && !viol) {
